@@ -55,10 +55,10 @@ fn main() {
             s.finish();
             out = std::mem::take(&mut s.out);
         }
-        "c03" | "c09" | "c20" | "c06" | "c08crash" => {
+        "c03" | "c09" | "c20" | "c06" | "c08crash" | "c13crash" => {
             let mut s = sess::Sess::new(&work);
             let thorough = std::env::var("VERIF_TIER").map_or(false, |t| t == "thorough");
-            let (m, p): (crash::Mode, &'static str) = match slice.as_str() { "c09" => (crash::Mode::PowerLoss, "C09"), "c20" => (crash::Mode::Kill, "C20"), "c06" => (crash::Mode::Kill, "C06"), "c08crash" => (crash::Mode::Kill, "C08"), _ => (crash::Mode::Kill, "C03") };
+            let (m, p): (crash::Mode, &'static str) = match slice.as_str() { "c09" => (crash::Mode::PowerLoss, "C09"), "c20" => (crash::Mode::Kill, "C20"), "c06" => (crash::Mode::Kill, "C06"), "c08crash" => (crash::Mode::Kill, "C08"), "c13crash" => (crash::Mode::Kill, "C13"), _ => (crash::Mode::Kill, "C03") };
             crash::crashes(&mut s, &mut rng, n, m, p, thorough);
             s.finish();
             out = std::mem::take(&mut s.out);
